@@ -260,15 +260,17 @@ def _lin_cases(rng, tier, cs):
 
 def _kz_cases(rng, tier, cs):
     import odl
-    nper = 12 if tier == 'quick' else 50
+    nper = 24 if tier == 'quick' else 100
     for _ in range(nper):
         n = rng.randint(1, 4)
         dom, dk = _space(rng, n, ('rn', 'rnw'))
-        nb = rng.randint(1, 3)
+        nb = rng.randint(1, 4)
         ops, rhs, blocks, descb = [], [], [], []
         for _i in range(nb):
             m = rng.randint(1, 3)
             M = _imat(rng, m, n)
+            if rng.random() < 0.4:
+                M = M * rng.choice([8.0, 16.0, 0.25])      # blocks of very different norm => very different omega_i
             ran = odl.rn(m) if dk == 'rn' else odl.rn(m, weighting=dom.weighting.const)
             op = odl.MatrixOperator(M, dom, ran)
             b = _ivec(rng, m)
@@ -285,14 +287,25 @@ def _kz_cases(rng, tier, cs):
             blocks = [(M, Mt, b, blocks[0][3]) for (M, Mt, b, _o) in blocks]
         tr = []
         x = dom.element(x0)
+        # random=True: the permutations are drawn with np.random.permutation, once per outer iteration and
+        # nothing else in the loop consumes the global generator -> fix the seed, replay the draws for the model
+        randomised = rng.random() < 0.5
+        orders = 'None'
+        if randomised:
+            seed = rng.randrange(2 ** 31)
+            np.random.seed(seed)
+            drawn = [np.random.permutation(range(nb)).tolist() for _ in range(niter)]
+            orders = '(Some %s)' % C.lst([C.lst([C.nat(i) for i in o]) + '%nat' for o in drawn])
+            np.random.seed(seed)
         odl.solvers.kaczmarz(ops, x, rhs, niter, omega=(blocks[0][3] if same_omega else [bl[3] for bl in blocks]),
-                             callback=_cb(tr), callback_loop='inner' if inner else 'outer')
+                             random=randomised, callback=_cb(tr), callback_loop='inner' if inner else 'outer')
         bt = C.lst([_rec(kb_M=C.qss(M.tolist()), kb_Mt=C.qss(Mt.tolist()), kb_b=C.qs(b), kb_omega=C.q(om))
                     for (M, Mt, b, om) in blocks])
         term = 'CKz ' + _rec(kz_blocks=bt, kz_x0=C.qs(x0), kz_niter=C.nat(niter), kz_inner=C.b(inner),
-                             kz_trace=C.qss(tr))
-        cs.add(term, {'solver': 'kaczmarz', 'space': dk, 'blocks': descb, 'x0': x0, 'niter': niter, 'inner': inner},
-               ('kz', dk, str(descb), tuple(x0), niter, inner) if _moved(x0, tr) else None)
+                             kz_orders=orders, kz_trace=C.qss(tr))
+        cs.add(term, {'solver': 'kaczmarz', 'space': dk, 'blocks': descb, 'x0': x0, 'niter': niter, 'inner': inner,
+                      'random': randomised, 'orders': orders},
+               ('kz', dk, str(descb), tuple(x0), niter, inner, orders) if _moved(x0, tr) else None)
 
 
 def _pm_cases(rng, tier, cs):
@@ -965,6 +978,35 @@ def _linear_probes(rng, tier, out):
         x = dom.element(x0)
         cb(x)
         S.kaczmarz(ops, x, rh, rng.choice([2, 5]), omega=oms, callback=cb, callback_loop=rng.choice(['inner', 'outer']))
+        # random order, each block with its own omega_i = c_i/|A_i|^2 (true norms, blocks of very different size):
+        # the distance must not increase after ANY single block step
+        ops2, rh2, oms2, Ms2 = [], [], [], []
+        for _i in range(rng.randint(2, 4)):
+            Mi = _imat(rng, rng.randint(1, 3), n) * rng.choice([1.0, 16.0, 0.125, 64.0])
+            rani = odl.rn(Mi.shape[0]) if wconst is None else odl.rn(Mi.shape[0], weighting=wconst)
+            oi = odl.MatrixOperator(Mi, dom, rani)
+            ops2.append(oi)
+            rh2.append(oi(xs))
+            oms2.append(rng.choice([2.0, 1.0, 1.5]) / _true_opnorm(oi) ** 2)
+            Ms2.append(Mi.tolist())
+        seed = rng.randrange(2 ** 31)
+        vals2 = []
+        cb2 = lambda z: vals2.append(float((z - xs).norm()))
+        x = dom.element(x0)
+        cb2(x)
+        np.random.seed(seed)
+        S.kaczmarz(ops2, x, rh2, 4, omega=oms2, random=True, callback=cb2, callback_loop='inner')
+        rp2 = ("import odl, numpy as np\ndom=%s\nMs=%r; oms=%r\nxs=dom.element(%r); x=dom.element(%r)\n"
+               "ops=[odl.MatrixOperator(np.array(M),dom,%s) for M in Ms]\nrh=[o(xs) for o in ops]; vals=[]\n"
+               "cb=lambda z: vals.append(float((z-xs).norm()))\ncb(x)\nnp.random.seed(%d)\n"
+               "odl.solvers.kaczmarz(ops,x,rh,4,omega=oms,random=True,callback=cb,callback_loop='inner')\n"
+               "observed=vals\nok=all(b<=a*(1+1e-9)+1e-12 for a,b in zip(vals,vals[1:]))\n"
+               % ('odl.rn(%d)' % n if wconst is None else 'odl.rn(%d,weighting=%r)' % (n, wconst),
+                  Ms2, oms2, _flat(xs).tolist(), x0,
+                  'odl.rn(len(M))' if wconst is None else 'odl.rn(len(M),weighting=%r)' % wconst, seed))
+        _P(out, _mono(vals2, 1e-9), 'kaczmarz-random-order-distance-%s' % dk,
+           'kaczmarz(random=True, omega_i <= 2/|A_i|^2 per operator, blocks of very different norm): distance to a '
+           'solution non-increasing after every block step', rp2, {'vals': vals2[:12], 'omega': oms2})
         rp = ("import odl, numpy as np\ndom=%s\nMs=%r; oms=%r\nxs=dom.element(%r); x=dom.element(%r)\n"
               "ops=[odl.MatrixOperator(np.array(M),dom,%s) for M in Ms]\nrh=[o(xs) for o in ops]; vals=[]\n"
               "cb=lambda z: vals.append(float((z-xs).norm()))\ncb(x)\nodl.solvers.kaczmarz(ops,x,rh,5,omega=oms,callback=cb,callback_loop='inner')\n"
